@@ -6,7 +6,7 @@ after = set(sys.argv[2].split(',')) if len(sys.argv) > 2 else set()
 props = os.environ.get("PROPS", "").split() or ["C%02d" % i for i in range(1, 21)]
 for p in props:
     for k in (1, 2, 3):
-        d = f"/tmp/wt-{p}-{rnd}/_out/{k}"
+        d = os.environ.get("SEED_DIR_PATTERN", "/tmp/wt-{p}-{rnd}").format(p=p, rnd=rnd) + f"/_out/{k}"
         if not os.path.isdir(d):
             continue
         sid = f"{p}-{rnd}{k}"
